@@ -31,14 +31,14 @@ import ast
 from typing import Any
 
 from ..engine.cfg import CFG
-from ..engine.normalize import ANCHOR_NAMES, normalize
+from ..engine.normalize import ANCHOR_NAMES
 from ..engine.report import AnalysisError, Run
 from ..engine.resolver import ClassInfo, FuncInfo, Program, body_walk
 from ..engine.terms import Poly, TermEval, flow_eval
 from ..engine.util import find_calls, method_call, node_calls, node_writes, nodes_with_call, normal_edge, u
 from ._c15_util import (
-    all_ctors, bound_args, cancel_and_gather, ctor_kind, guarded_by_emptiness, loop_binding, match_send,
-    method_params, name_delta, result_fields, self_calls, set_growth, set_term, show_term, splice_tail_helpers,
+    all_ctors, analysis_view, bound_args, cancel_and_gather, ctor_kind, guarded_by_emptiness, loop_binding, match_send,
+    method_params, name_delta, result_fields, self_calls, set_growth, set_term, show_term,
     subscript_atom, typed_param,
 )
 
@@ -73,8 +73,7 @@ def const_fields(prog: Program, cls: ClassInfo) -> dict[str, Poly]:
 def _norm(prog: Program, fn: FuncInfo) -> FuncInfo:
     """Analysis view of a function: simple private helpers spliced in, single-assignment locals
     substituted (if/else is kept as control flow: guards are read from the CFG)."""
-    view, _spliced = splice_tail_helpers(prog, fn)
-    return normalize(prog, view, diamonds=False)
+    return analysis_view(prog, fn)
 
 
 def _covered_at_call_sites(prog: Program, cls: ClassInfo, m: FuncInfo) -> bool:
